@@ -335,6 +335,39 @@ theorem ones_count (a : List Nat) (ha : Valid a) : ones a = a.count 1 := by
     have := ih (fun y hy => ha y (List.mem_cons_of_mem _ hy))
     rcases ha x (by simp) with rfl | rfl <;> simp [ones] at this ⊢ <;> omega
 
+/-! ### the algebra of concatenation, inversion and counting -/
+
+/-- **add_assoc**: `(a + b) + c == a + (b + c)` for sequences — both groupings are accepted and give the same bits -/
+theorem add_assoc (a b c : List Nat) (ha : Valid a) (hb : Valid b) (hc : Valid c) :
+    (add a (.bs b)).bind (fun r => match r with | .ok ab => add ab (.bs c) | .error e => some (.error e)) =
+    (add b (.bs c)).bind (fun r => match r with | .ok bc => add a (.bs bc) | .error e => some (.error e)) := by
+  rw [add_bs a b ha hb, add_bs b c hb hc]
+  simp only [Option.bind_some]
+  rw [add_bs (a ++ b) c (valid_append ha hb) hc, add_bs a (b ++ c) ha (valid_append hb hc), List.append_assoc]
+
+/-- **invert_add**: inversion distributes over concatenation, `~(a + b) == ~a + ~b` -/
+theorem invert_add (a b : List Nat) :
+    invert (a ++ b) = .ok (a.map flip ++ b.map flip) ∧
+    add (a.map flip) (.bs (b.map flip)) = some (.ok (a.map flip ++ b.map flip)) := by
+  refine ⟨by rw [invert_spec, List.map_append], add_bs _ _ (valid_map_flip a) (valid_map_flip b)⟩
+
+/-- **ones_add**: counting is additive over concatenation: `ones(a+b) = ones(a)+ones(b)`, likewise `zeros` and `len` -/
+theorem ones_add (a b : List Nat) (ha : Valid a) (hb : Valid b) :
+    ones (a ++ b) = ones a + ones b ∧ zeros (a ++ b) = zeros a + zeros b ∧ len (a ++ b) = len a + len b := by
+  have h1 := ones_le_len ha
+  have h2 := ones_le_len hb
+  have hs : ones (a ++ b) = ones a + ones b := by simp [ones]
+  have hl : len (a ++ b) = len a + len b := by simp [len]
+  refine ⟨hs, ?_, hl⟩
+  unfold zeros
+  rw [hs, hl]
+  omega
+
+/-- non-vacuity of the three laws on `101`, `0`, `11` -/
+example : add [1, 0, 1] (.bs [0]) = some (.ok [1, 0, 1, 0]) ∧ add [1, 0, 1, 0] (.bs [1, 1]) = some (.ok [1, 0, 1, 0, 1, 1]) ∧
+    add [1, 0, 1] (.bs [0, 1, 1]) = some (.ok [1, 0, 1, 0, 1, 1]) ∧ invert [1, 0, 1, 0] = .ok [0, 1, 0, 1] ∧
+    ones [1, 0, 1, 0] = 2 ∧ zeros [1, 0, 1, 0] = 2 := by decide
+
 /-! ### indexing -/
 
 /-- integer index (negative from the end): a length-1 sequence holding that element; out of range is refused -/
